@@ -380,6 +380,9 @@ func coverChecks(cfg *solveCfg, gens []*Gen) []*Obl {
 		if g.fn == nil || len(g.exits) == 0 {
 			continue
 		}
+		if g.c != nil && g.c.NoReturn {
+			continue // a function that never returns normally has no reachable exit by contract
+		}
 		var rs []string
 		for _, e := range g.exits {
 			rs = append(rs, e.st.r)
